@@ -2,6 +2,11 @@ import TvCore.Props.C02
 import TvCore.Props.C02Close
 import TvCore.Props.C02Refine
 import TvCore.Props.C02Flow
+import TvCore.Props.C02FlowRun
+import TvCore.Props.C02FlowEx
+import TvCore.Props.C02Stale
+import TvCore.Props.C02FlowConn
+import TvCore.Props.C02StreamId
 #print axioms TV.C02.drainBuf_inv
 #print axioms TV.C02.arrive_inv
 #print axioms TV.C02.pop_inv
@@ -54,3 +59,24 @@ import TvCore.Props.C02Flow
 #print axioms TV.C02.channel_bounded
 #print axioms TV.C02.backpressure
 #print axioms TV.C02.drainBuf_conserves
+#print axioms TV.C02.recv_step
+#print axioms TV.C02.deliverTo_step
+#print axioms TV.C02.loStep_step
+#print axioms TV.C02.hop_keeps_tot
+#print axioms TV.C02.step_keeps_tot
+#print axioms TV.C02.credits_conserved
+#print axioms TV.C02.credits_conserved_run
+#print axioms TV.C02.never_overflows_run
+#print axioms TV.C02.estab_of_dec
+#print axioms TV.C02.flow_runOk
+#print axioms TV.C02.witness_stale_half_same_pair
+#print axioms TV.C02.stale_write_refused_before_reconnect
+#print axioms TV.C02.witness_stale_write_accepted
+#print axioms TV.C02.stale_bytes_read_by_new_connection
+#print axioms TV.C02.stale_drop_kills_new_connection
+#print axioms TV.C02.connSafe_of_cursor
+#print axioms TV.C02.witness_F_C02_2
+#print axioms TV.C02.fixed_F_C02_2
+#print axioms TV.C02.residual_F_C02_2
+#print axioms TV.C02.residual_fixed
+#print axioms TV.C02.stale_half_inert
